@@ -14,11 +14,15 @@ def add_constant_signal(self, f_start, drift_rate, level, width, f_profile_type=
     width = unit_utils.get_value(width, u.Hz)
     start_index = self.get_index(f_start)
     px_width_offset = int(np.ceil(2 * width / self.df))
-    px_drift_offset = self.dt * (self.tchans - 1) * drift_rate / self.df
+    # General injection evaluates the linear path f_start + drift*t on the frame's OWN time axis (first row ts[0], last row
+    # ts[-1], one step further with smearing): the box must span the path's excursion over exactly those times, whatever
+    # ts[0] is (a frame inside a cadence injection, or a consolidated cadence, does not start at 0)
+    px_first = drift_rate * self.ts[0] / self.df
+    px_last = drift_rate * self.ts[-1] / self.df
     if doppler_smearing:
-        px_drift_offset += drift_rate * self.dt / self.df
-    bounding_start_index = start_index + int(np.floor(min(px_drift_offset, 0))) - px_width_offset
-    bounding_stop_index = start_index + int(np.ceil(max(px_drift_offset, 0))) + px_width_offset + 1
+        px_last += drift_rate * self.dt / self.df
+    bounding_start_index = start_index + int(np.floor(min(px_first, px_last))) - px_width_offset
+    bounding_stop_index = start_index + int(np.ceil(max(px_first, px_last))) + px_width_offset + 1
     bounding_min_index = max(bounding_start_index, 0)
     bounding_max_index = min(bounding_stop_index, self.fchans)
     if f_profile_type == 'gaussian':
